@@ -1,0 +1,71 @@
+// Verification hooks (compiled in only with -DNINJA_VERIF).
+//
+// VERIF_EVENT(name, edge, detail) reports a named step of the build engine to
+// an optional sink installed by a test harness.  VERIF_CRASH_POINT(name) lets a
+// harness stop the process (without any cleanup) at the n-th passage of a named
+// point, selected through the environment variable VERIF_CRASH_POINT=name#n or
+// through the sink.  With the guard off both macros expand to nothing.
+
+#ifndef NINJA_VERIF_HOOKS_H_
+#define NINJA_VERIF_HOOKS_H_
+
+#ifdef NINJA_VERIF
+
+#include <stdio.h>
+#include <stdlib.h>
+#include <string.h>
+#include <unistd.h>
+
+struct Edge;
+
+struct VerifSink {
+  virtual ~VerifSink() {}
+  /// |edge| may be null.  |detail| is a short free-form string, never null.
+  virtual void Event(const char* name, const Edge* edge, const char* detail) = 0;
+  /// Called at each crash point; a sink that wants the process to die there
+  /// does not return.
+  virtual void CrashPoint(const char* name) { (void)name; }
+};
+
+inline VerifSink* g_verif_sink = nullptr;
+
+inline void VerifCrashPointImpl(const char* name) {
+  if (g_verif_sink)
+    g_verif_sink->CrashPoint(name);
+  static const char* spec = getenv("VERIF_CRASH_POINT");
+  if (!spec)
+    return;
+  static int countdown = -1;
+  const char* hash = strchr(spec, '#');
+  size_t len = hash ? (size_t)(hash - spec) : strlen(spec);
+  if (strlen(name) != len || strncmp(spec, name, len) != 0)
+    return;
+  if (countdown < 0)
+    countdown = hash ? atoi(hash + 1) : 1;
+  if (--countdown == 0) {
+    const char* trace = getenv("VERIF_TRACE");
+    if (trace) {
+      if (FILE* f = fopen(trace, "ab")) {
+        fprintf(f, "{\"e\":\"Crash\",\"point\":\"%s\"}\n", name);
+        fclose(f);
+      }
+    }
+    _exit(99);
+  }
+}
+
+#define VERIF_EVENT(name, edge, detail)                   \
+  do {                                                    \
+    if (g_verif_sink)                                     \
+      g_verif_sink->Event((name), (edge), (detail));      \
+  } while (0)
+#define VERIF_CRASH_POINT(name) VerifCrashPointImpl(name)
+
+#else  // !NINJA_VERIF
+
+#define VERIF_EVENT(name, edge, detail) do {} while (0)
+#define VERIF_CRASH_POINT(name) do {} while (0)
+
+#endif  // NINJA_VERIF
+
+#endif  // NINJA_VERIF_HOOKS_H_
